@@ -108,9 +108,10 @@ def generate(seed, tier):
 
     live_pats = {}
 
-    def under_reader():
-        """a triple of G that an open reader's pattern covers (mutations aimed at what is being iterated)"""
-        cands = [t for t in sorted(model["G"], key=repr) for p_ in live_pats.values() if all(p_[i] is None or tuple(p_[i]) == t[i] for i in range(3))]
+    def under_reader(name="G"):
+        """a triple of graph `name` that an open reader's pattern covers - whichever graph that reader iterates
+        (mutations aimed at what is being iterated, also through another graph of the same store)"""
+        cands = [t for t in sorted(model[name], key=repr) for p_ in live_pats.values() if all(p_[i] is None or tuple(p_[i]) == t[i] for i in range(3))]
         return [list(x) for x in g.pick(cands)] if cands else None
 
     def pat():
@@ -135,8 +136,7 @@ def generate(seed, tier):
                 if rk == "iter":
                     op["pat"] = [None, None, None]
                 live.append(nreaders)
-                if op["g"] == "G":
-                    live_pats[nreaders] = op["pat"]
+                live_pats[nreaders] = op["pat"]
             elif kind in ("step", "drain", "close", "drop") and live:
                 r = sched.pick(live)
                 op = {"uid": uid, "k": kind, "r": r}
@@ -157,6 +157,10 @@ def generate(seed, tier):
         name = op["g"]
         if kind == "add":
             op["t"] = tri()
+            if live_pats and g.chance(0.3):
+                # a triple that an open reader's pattern covers (often the reader iterates another graph of the same store)
+                pt = g.pick(sorted(live_pats.values(), key=repr))
+                op["t"] = [pt[i] if pt[i] is not None else op["t"][i] for i in range(3)]
             if g.chance(0.25):  # aim: a triple present in another graph (shared triple)
                 others = [x for n in NAMES if n != name for x in present(n)]
                 if others:
@@ -171,8 +175,8 @@ def generate(seed, tier):
             for q in op["q"]:
                 if q[3] == name:
                     model[name].add(tt(q[:3]))
-        elif kind == "remove" and name == "G" and live_pats and g.chance(0.5) and under_reader() is not None:
-            op["t"] = under_reader()
+        elif kind == "remove" and live_pats and g.chance(0.5) and under_reader(name) is not None:
+            op["t"] = under_reader(name)
             model[name] = {t for t in model[name] if t != tuple(tuple(x) for x in op["t"])}
         elif kind == "remove":
             op["t"] = pat() if name == "G" else [None if g.chance(0.3) else x for x in (g.pick(present(name)) if model[name] else tri())]
